@@ -18,7 +18,7 @@ TOL = 2e-8
 
 
 def run_loop(ctx, cuqi, r, thorough):
-    n_cases = 16 if not thorough else 120
+    n_cases = 14 if not thorough else 120
     # the first entry of each list is a LONG run (17 / 16 steps): defects that grow with the number of stored samples
     LEG = [(14, 4), (3, 0), (1, 0), (2, 2), (1, 3), (4, 1), (0, 1), (2, 0), (0, 0)]
     EXP = [(4, 12), (0, 3), (2, 2), (3, 0), (1, 1), (0, 0), (1, 3)]
